@@ -29,6 +29,11 @@ func Run(r *core.Run) {
 	r.Assume("V8 (Node 20) implements ECMAScript on the generated fragment; where JsSem/JsFold and V8 disagree on the INPUT program the case is reported as drift and excluded")
 	r.Assume("finite results of ** and folds whose exact value needs non-integer float arithmetic are judged by V8 only (DESIGN.md section 6)")
 	r.Assume("the probe host (p, o, G, parameters) is the only observable channel: calls with arguments, property traffic on the recorder object, valueOf calls, thrown exception class, completion value")
+	if r.Replay != "" {
+		replayOne(r)
+		r.Set("rule", "replay of one recorded scenario")
+		return
+	}
 	// the two bindings are independent: run them side by side (4 TLC workers each)
 	var wg sync.WaitGroup
 	if os.Getenv("C03_SKIP_FOLD") == "" {
